@@ -221,6 +221,10 @@ def run(chk, model_ok=True):
                             why = f"request needing at most {est} octets was refused with SnmpEncodeError"
                         elif r[1] == "SnmpEncodeError":
                             sizes["oob"] += 1
+                        elif est is not None and est > cap() + 400 and rec["op"] == "getmany" and r[1] not in ("SnmpEncodeError",):
+                            # (est is an upper bound within a few hundred octets: far beyond the capacity the request IS oversized)
+                            if c03.text_denotes_all(rec) if hasattr(c03, "text_denotes_all") else True:
+                                why = f"oversized request (about {est} octets) raised {r[1]} instead of SnmpEncodeError"
                 else:
                     d = rec["req"]
                     if not d or "undecodable" in d or not d.get("all_minimal"):
@@ -229,6 +233,44 @@ def run(chk, model_ok=True):
                         why = f"datagram of {len(rec['datagrams'][0])} octets exceeds the buffer capacity"
                 if why:
                     fail(s.line()[:400000], str(r), f"{s.label} {rec['op']}: {why}")
+    # the receive side of the same buffer: a reply larger than the buffer is cut by the kernel; what lies beyond was never
+    # received, so the call must fail to decode — it can never return octets of the part that did not fit
+    for peer in (e2e.Peer("v2c"), e2e.Peer("v3", auth=1, priv=2, auth_kt="localized", priv_kt="localized")):
+        sx = sessions.Sess(env, peer, rng)
+        for big in (cap() - 200, cap() + 10, 5000, 9000, 20000):
+            rec = sx.send("get", "1.3.6.1.2.1.1.1.0")
+            req = sx.conv.req
+            if rec["result"][0] != "ok" or not req or "request_id" not in req:
+                continue
+            payload = bytes((i * 7 + 3) % 251 for i in range(big))
+            dg = peer.response(req, [ber.varbind((1, 3, 6, 1, 2, 1, 1, 1, 0), ber.OCT(payload))])
+            chk.progress(f"{peer.label}: recv_get of a reply of {len(dg)} octets (receive buffer {cap()}): " + sx.line()[:1500])
+            r = sx.recv("get", [dg])["result"]
+            chk.progress("")
+            n_e2e += 1
+            if len(dg) > cap():
+                if r[0] == "ok":
+                    got_len = len(r[1]) if isinstance(r[1], (bytes, str)) else -1
+                    fail(f"# {peer.label} reply of {len(dg)} octets", str(r)[:80], f"{peer.label}: a reply of {len(dg)} octets (buffer {cap()}) was "
+                         f"delivered as a value of {got_len} octets: octets beyond the receive buffer were read")
+                elif r[1] != "SnmpDecodeError":
+                    fail(f"# {peer.label} reply of {len(dg)} octets", str(r)[:80], f"{peer.label}: a reply of {len(dg)} octets ended as {r[1]}, not SnmpDecodeError")
+            elif r[0] != "ok" or r[1] != payload:
+                fail(f"# {peer.label} reply of {len(dg)} octets", str(r)[:80], f"{peer.label}: a fitting reply of {len(dg)} octets was not delivered intact")
+    # a user name that cannot fit any message, on sessions that learn their engine id from the agent: the first real request
+    # must be refused with SnmpEncodeError; nothing may go out under another (empty) user name instead
+    from props import c13
+    for mode in ("sync", "async"):
+        peer = e2e.Peer("v3", auth=0, priv=0, user="u" * 5000)
+        runner = c13.run_sync_client if mode == "sync" else c13.run_async_client
+        script, r, results = runner(rng, peer, True, ["1.3.6.1.2.1.1.1.0"])
+        n_e2e += 1
+        data_reqs = [d for _, d in script.requests if isinstance(d, dict) and d.get("varbinds")]
+        if data_reqs:
+            fail(f"# {mode} oversized user name", str(r)[:80], f"{mode} client, user name of 5000 octets: a request went out under user "
+                 f"{data_reqs[0].get('user')!r} ({len(data_reqs)} data requests sent) instead of failing with SnmpEncodeError")
+        elif r[0] == "ok" or r[1] not in ("SnmpEncodeError", "PySnmpEncodeError"):    # (create_exception! names the class after the Rust identifier)
+            fail(f"# {mode} oversized user name", str(r)[:80], f"{mode} client, user name of 5000 octets: ended as {r[:2]} instead of SnmpEncodeError")
     # the Python clients in front of the socket: what get_many is given is what must be sized and sent — repeated
     # OIDs included (a list that is oversized through repetition must be refused, a fitting one sent complete)
     from gufo.snmp import SnmpVersion
